@@ -183,3 +183,33 @@ def shape_text_of(rec, bs, L):
     if c2 != z3.unsat:
         return None
     return b[:k].decode('ascii', 'replace')
+
+
+def split_jobs(lens, heavy_from=6, parts=7):
+    """(L, part, nparts): the longer lengths are case-split on the first byte so that the cores share them"""
+    jobs = []
+    for L in lens:
+        if L >= heavy_from:
+            jobs += [(L, k, parts) for k in range(parts)]
+        else:
+            jobs.append((L, 0, 1))
+    # longest first
+    jobs.sort(key=lambda j: (-j[0], j[1]))
+    return jobs
+
+
+def part_cons(k, parts):
+    """constraint generator: first byte in the k-th class (rank letters chunked into parts-1 groups; last class = any non-rank byte)"""
+    if parts == 1:
+        return None
+    letters = [ord(c) for c in RANK_CH]
+    n = parts - 1
+    groups = [letters[i::n] for i in range(n)]
+
+    def f(bs):
+        if not bs:
+            return [z3.BoolVal(k == 0)]
+        if k < n:
+            return [z3.Or(*[bs[0] == c for c in groups[k]])]
+        return [z3.And(*[bs[0] != c for c in letters])]
+    return f
